@@ -34,6 +34,9 @@ Inductive req :=
 | RWsdl                                  (* GET ...?wsdl *)
 | RValidate (ok : bool) (e : Z)          (* schema-validate a payload; [e] names the error text libxml
                                             produces for THIS payload when it is invalid *)
+| RValidateX (e : Z)                     (* schema-validate a payload on which validate() ITSELF raises
+                                            XMLSchemaValidateError (e.g. an unresolved entity reference left in
+                                            the tree); [e] names the text of that internal error *)
 | RAttrs (ks : list Z)                   (* look up and use the protocol attributes of classes ks, in order *)
 | RMemo (ks : list Z)                    (* call a @memoize'd function on keys ks, in order *)
 | RSort (ks : list Z).                   (* prot.sort_fields(cls) for classes ks, in order *)
@@ -105,6 +108,7 @@ Inductive resp :=
 | PWsdl (d : option Z)
 | PValid
 | PFault (e : option Z)        (* the error text put in the fault: None = str(None), Some e = text of error e *)
+| PCrash                       (* an exception that is not a Fault escapes __validate_lxml (snapshot only) *)
 | PVals (vs : list V).
 
 Record tstate := {
@@ -225,7 +229,7 @@ Definition tinit (v : variant) (q : req) : tstate :=
   match q with
   | RIdle => mk Done [] None
   | RWsdl => mk (match v with Pinned => W_chk1 | Repaired => W_readr end) [] None
-  | RValidate _ _ => mk (match v with Pinned => V_val | Repaired => V_acq end) [] None
+  | RValidate _ _ | RValidateX _ => mk (match v with Pinned => V_val | Repaired => V_acq end) [] None
   | RAttrs [] => mk Done [] (Some (PVals []))
   | RAttrs ks => mk G_get ks None
   | RMemo [] => mk Done [] (Some (PVals []))
@@ -293,6 +297,16 @@ Definition step (v : variant) (reqs : Z -> req) (s : state) (t : Z) : option sta
                               | Repaired => set_ret th V_rel true
                               end
                    else set_ret th V_log false))
+      | RValidateX e =>
+          (* validate() raises after filling the log: the with block is left (lock released), the
+             except clause turns the exception into the fault, whose text comes from the exception
+             object (thread-local), not from the shared log.  The snapshot has no except clause. *)
+          let s1 := with_errlog s (Some e) in
+          Some (with_thr s1 t
+                  (match v with
+                   | Pinned => finish (set_ret th Done false) PCrash
+                   | Repaired => set_txt (set_ret th V_rel false) V_rel (Some e)
+                   end))
       | _ => None
       end
   | V_log =>
@@ -355,6 +369,7 @@ Definition alone (q : req) : option resp :=
   | RIdle => None
   | RWsdl => Some (PWsdl (Some 0))
   | RValidate ok e => Some (if ok then PValid else PFault (Some e))
+  | RValidateX e => Some (PFault (Some e))
   | RAttrs ks => Some (PVals (map full ks))
   | RMemo ks => Some (PVals (map mf ks))
   | RSort ks => Some (PVals (map sf ks))
@@ -371,4 +386,4 @@ Arguments todo {V}. Arguments ref {V}. Arguments obs {V}. Arguments out {V}.
 Arguments app_wsdl {V}. Arguments b_wsdl {V}. Arguments b_gen {V}. Arguments wlock {V}.
 Arguments cache {V}. Arguments heap {V}. Arguments next {V}. Arguments errlog {V}.
 Arguments vlock {V}. Arguments memo {V}. Arguments mlock {V}. Arguments scache {V}. Arguments thr {V}.
-Arguments PWsdl {V}. Arguments PValid {V}. Arguments PFault {V}. Arguments PVals {V}.
+Arguments PWsdl {V}. Arguments PValid {V}. Arguments PFault {V}. Arguments PCrash {V}. Arguments PVals {V}.
